@@ -1098,7 +1098,8 @@ def tril(m, *args, **kwargs):
 @implements(np.einsum)
 def einsum(*operands, out=None, **kwargs):
     subscripts, *operands = operands
-    ret_units = _validate_units_consistency(operands)
+    # every term of the result is a product of one element of each operand
+    ret_units = np.prod(get_units(operands))
 
     if out is not None:
         out_view = np.asarray(out)
